@@ -36,7 +36,9 @@ VARS = ['A', 'B', 'X']
 
 
 def make(case):
-    cls = scripted.make_class(['A', 'B'], bases=(TracerMixin, fsic.BaseModel))
+    # the scripted hooks sit *below* the tracer in the MRO, so a raising hook raises inside the tracer's super() call
+    base = scripted.make_class(['A', 'B'], bases=(fsic.BaseModel,))
+    cls = type('Traced', (TracerMixin, base), {})
     n = case.get('n', 3)
     m = cls(range(n), A=np.array([1.0 + i for i in range(n)]), B=np.array([10.0 * (i + 1) for i in range(n)]),
             X=np.array([0.5 * i for i in range(n)]))
@@ -132,14 +134,20 @@ def check_case(case):
             if p in visited:
                 exp_labels.append('start')
                 rows.append(before_cells[p])
+                hooks = case.get('hooks') or {}
                 for kind, _, k, cells in [e for e in events if e[1] == p]:
                     if kind == 'before':
-                        exp_labels += ['before', 0]
-                        rows += [cells, cells]
+                        # 'before' is recorded ahead of the pre-solution hook, 0 after it returned
+                        exp_labels.append('before')
+                        rows.append(cells)
+                        if not hooks.get('before'):
+                            exp_labels.append(0)
+                            rows.append(cells)
                     elif kind == 'pass':
                         exp_labels.append(k)
                         rows.append(cells)
-                    elif kind == 'after':
+                    elif kind == 'after' and not hooks.get('after'):
+                        # an unsolved period's trace stops after its last pass: no 'end' if the post-solution hook raised
                         exp_labels.append('end')
                         rows.append(cells)
             new_labels = a_index[len(b_index):]
@@ -202,7 +210,7 @@ def strategy():
             if c['entry'] == 'solve_period' and c['t'] < 0:
                 c['t'] = n + c['t']
             calls.append(c)
-        hooks = draw(st.sampled_from([None, None, None, {'before': 'KeyError'}, {'after': 'ValueError'}]))
+        hooks = draw(st.sampled_from([None, None, None, {'before': 'KeyError'}, {'after': 'ValueError'}, {'after': 'ZeroDivisionError'}]))
         return {'n': n, 'script': draw(passes), 'hooks': hooks, 'calls': calls}
     return cases()
 
@@ -219,6 +227,9 @@ def gen_basic():
                             c = {'entry': entry, 't': 1, 'trace': trace,
                                  'opts': {'max_iter': max_iter, 'tol': 0.5, 'failures': failures}}
                             yield {'n': 3, 'script': script, 'calls': [c]}
+                            if failures == 'ignore' and entry != 'solve_period':
+                                yield {'n': 3, 'script': script, 'hooks': {'after': 'KeyError'}, 'calls': [c]}
+                                yield {'n': 3, 'script': script, 'hooks': {'before': 'ValueError'}, 'calls': [c]}
                             yield {'n': 3, 'script': script, 'calls': [c, c]}
                             yield {'n': 3, 'script': script, 'calls': [c, dict(c, entry='solve_t'), c]}
     return gen
